@@ -408,3 +408,47 @@ Definition unwritten (d : mirror_def) : list path :=
 (* source leaves the conversion never reads *)
 Definition unread (d : mirror_def) : list path :=
   filter (fun l => negb (existsb (fun e => path_eqb (e_src e) l) (m_entries d))) (m_src_leaves d).
+
+(* ---- the key store on disk (common/key/store.go fileStore): one file per kind of value.
+   A save replaces the file's content, a load returns what the last save wrote, Reset deletes the
+   share file and the group file (not the key pair). Values are named by the number the harness
+   gave them; [None] is "no such file / load error". ---- *)
+Inductive dfile := FPair | FShare | FGroup.
+Inductive dop := DSave (f : dfile) (v : Z) | DLoad (f : dfile) | DReset.
+Record dstate := { d_pair : option Z; d_share : option Z; d_group : option Z }.
+Definition disk_init : dstate := {| d_pair := None; d_share := None; d_group := None |}.
+Definition dget (f : dfile) (s : dstate) : option Z :=
+  match f with FPair => d_pair s | FShare => d_share s | FGroup => d_group s end.
+Definition dset (f : dfile) (x : option Z) (s : dstate) : dstate :=
+  match f with
+  | FPair => {| d_pair := x; d_share := d_share s; d_group := d_group s |}
+  | FShare => {| d_pair := d_pair s; d_share := x; d_group := d_group s |}
+  | FGroup => {| d_pair := d_pair s; d_share := d_share s; d_group := x |}
+  end.
+(* the output of a load is [Some result]; other operations output nothing *)
+Definition disk_step (s : dstate) (o : dop) : dstate * option (option Z) :=
+  match o with
+  | DSave f v => (dset f (Some v) s, None)
+  | DLoad f => (s, Some (dget f s))
+  | DReset => (dset FGroup None (dset FShare None s), None)
+  end.
+Fixpoint disk_run (s : dstate) (ops : list dop) : dstate * list (option Z) :=
+  match ops with
+  | [] => (s, [])
+  | o :: r =>
+      let '(s1, out) := disk_step s o in
+      let '(s2, outs) := disk_run s1 r in
+      (s2, match out with Some x => x :: outs | None => outs end)
+  end.
+(* what the most recent operations say a file holds; [ops_rev] is the history, latest first *)
+Fixpoint last_written (f : dfile) (ops_rev : list dop) : option Z :=
+  match ops_rev with
+  | [] => None
+  | DSave g v :: r =>
+      match f, g with
+      | FPair, FPair | FShare, FShare | FGroup, FGroup => Some v
+      | _, _ => last_written f r
+      end
+  | DLoad _ :: r => last_written f r
+  | DReset :: r => match f with FPair => last_written f r | _ => None end
+  end.
